@@ -41,7 +41,27 @@ type Core struct {
 }
 
 func NewCore(plan *Plan) *Core {
-	return &Core{points: map[string]int{}, plan: plan, sig: 14695981039346656037}
+	c := &Core{points: map[string]int{}, plan: plan, sig: 14695981039346656037}
+	coresMu.Lock()
+	cores = append(cores, c)
+	coresMu.Unlock()
+	return c
+}
+
+// The cores created since the last TakeCores call (one case runs at a time in
+// a process): the framework reports their schedule signatures and the number
+// of perturbation points they executed as evidence of what was explored.
+var (
+	coresMu sync.Mutex
+	cores   []*Core
+)
+
+func TakeCores() []*Core {
+	coresMu.Lock()
+	defer coresMu.Unlock()
+	out := cores
+	cores = nil
+	return out
 }
 
 // TriggerAt arranges for fn to be started (in its own goroutine) from inside
